@@ -12,6 +12,7 @@ case "$1" in
   git -C $LAB/verif checkout -q -- . ; git -C $LAB/verif checkout -q --detach $(git -C /verif rev-parse HEAD)
   sed -i "s#\"/repo/#\"$LAB/repo/#g" $LAB/verif/harness/Cargo.toml
   [ -f $LAB/verif/harness_nostd/Cargo.toml ] && sed -i "s#\"/repo/#\"$LAB/repo/#g" $LAB/verif/harness_nostd/Cargo.toml
+  [ -f $LAB/verif/harness_rms_only/Cargo.toml ] && sed -i "s#\"/repo/#\"$LAB/repo/#g" $LAB/verif/harness_rms_only/Cargo.toml
   [ -f $LAB/verif/harness_nightly_nostd/Cargo.toml ] && sed -i "s#\"/repo/#\"$LAB/repo/#g" $LAB/verif/harness_nightly_nostd/Cargo.toml
   grep -rl '"/repo' $LAB/verif/lib $LAB/verif/translate 2>/dev/null || true
   (cd $LAB/verif && DASP_REPO=$LAB/repo ./setup.sh | tail -2)
